@@ -22,4 +22,6 @@ type Resolver interface {
 	// Feed pushes one event through the library's own update loop and waits until it was consumed.
 	Feed(path string, data *[]byte)
 	Current() Uris
+	// FeedService pushes a service definition (the znode content) through the library's own service update loop.
+	FeedService(data *[]byte)
 }
